@@ -3,7 +3,7 @@
 export GOFLAGS=-mod=mod GOPROXY=off GOSUMDB=off GOTOOLCHAIN=local
 cd /verif/refactors
 one() {
-  n=$1; S=$(mktemp -d /tmp/rff.XXXXXX); rsync -a --exclude .git /repo/ $S/repo/; mkdir -p $S/verif/evidence; cp /verif/known_findings.txt $S/verif/
+  n=$1; S=$(mktemp -d /tmp/rff.XXXXXX); mkdir -p $S/repo && git -C /repo archive HEAD | tar -x -C $S/repo; mkdir -p $S/verif/evidence; cp /verif/known_findings.txt $S/verif/
   (cd $S/repo && patch -s -p1 < /verif/refactors/$n/patch.diff) || { echo "$n: patch failed"; rm -rf $S; return; }
   res=""; rm -f /verif/refactors/$n/*.alarms.txt
   for p in C01 C02 C03 C04 C05 C06 C07 C08 C09 C10 C11 C12 C13 C14 C15 C16 C17 C18 C19 C20; do
